@@ -6,8 +6,8 @@
     TblFeature.__str__                     `Feature.str`
     GeneTblFeature.__init__                `geneStrand`, `genePseudo`, `geneSpan`
     CDSTblFeature.__init__                 `cdsFlags` (codon_start, start/end completeness)
-    NcRNA/RRNA/TRNATblFeature              `rnaFeature` (they read `transcript.chromosome_location`, i.e. the
-                                           blocks as given — NOT the merged `_location`)
+    NcRNA/RRNA/TRNATblFeature              the non-coding branch of `txFeatures` (they read `transcript._location`,
+                                           the merged blocks, since /repo 7a2fc3c — F-C17c; switch `rnaRowsMerged`)
     TblGene.__init__ / __iter__            `mergeExons`, `mergeCDS`, `tblGene`
     collection_to_tbl                      `locusTags`, `fileText` (header `>Features <name>`, flavour filter)
 
@@ -260,10 +260,10 @@ def cdsFlags (c : CDS) (table : Int) : RT (Nat × Bool × Bool) := do
 
 def bt (s : String) : Option Str := some s.toList
 
-/-- MODEL SWITCH for F-C17c.  `false` = the code as it is: the RNA features of a non-coding gene read
-    `transcript.chromosome_location` (the blocks as given, adjacent exons stay separate rows); `true` = the proposed
-    repair: they read `transcript._location`, the blocks `TblGene` merged (as MRNATblFeature does). -/
-def rnaRowsMerged : Bool := false
+/-- MODEL SWITCH for F-C17c.  `true` = the code as it is since /repo 7a2fc3c: the RNA features of a non-coding
+    gene read `transcript._location`, the blocks `TblGene` merged (as MRNATblFeature does); `false` = the pinned code:
+    they read `transcript.chromosome_location` (the blocks as given, adjacent exons stay separate rows). -/
+def rnaRowsMerged : Bool := true
 
 /-- the transcript-level feature(s) of one transcript inside `TblGene.__init__`'s second loop -/
 def txFeatures (g : Gene) (table : Int) (pseudo : Bool) (t : Tx) (merged : List Blk) (mc : Option CDS) :
